@@ -10,6 +10,7 @@ import (
 	"strconv"
 	"strings"
 	"sync"
+	"sync/atomic"
 	"syscall"
 )
 
@@ -85,3 +86,18 @@ func Reset() {
 	hits = map[string]int{}
 	callbacks = map[string]func(){}
 }
+
+var sqlDriver atomic.Value
+
+// SQLDriver returns the database/sql driver name a store is opened with: the given name,
+// unless a harness selected a wrapping driver (one that yields before every statement) with
+// UseSQLDriver.
+func SQLDriver(name string) string {
+	if v, _ := sqlDriver.Load().(string); v != "" {
+		return v
+	}
+	return name
+}
+
+// UseSQLDriver selects the driver name SQLDriver returns ("" restores the default).
+func UseSQLDriver(name string) { sqlDriver.Store(name) }
